@@ -723,13 +723,16 @@ impl<H: NodeHasher> PageWalker<H> {
         let stack_top = self.stack.last_mut().unwrap();
         stack_top.page.set_node(node_index, node);
 
+        // The slot is always recorded as changed: the page may only be empty transiently (for
+        // example deletions under one first-layer node followed by insertions under the other),
+        // and a later `set_changed` erases the clear bit.
+        stack_top.diff.set_changed(node_index);
+
         if self.position.is_first_layer_in_page()
             && node == TERMINATOR
             && sibling_node == TERMINATOR
         {
             stack_top.diff.set_cleared();
-        } else {
-            stack_top.diff.set_changed(node_index);
         }
     }
 
